@@ -150,3 +150,12 @@ func C04KeptWrite(b []c04kv, k string, v int) (out []c04kv) {
 	}
 	return
 }
+
+// FMT-CONST control (C01).
+func c01text() string { return "100%" }
+
+func C01FormatText() {
+	text := c01text()
+	log.Printf(text + "\n")
+	log.Printf("%s\n", text)
+}
